@@ -273,6 +273,8 @@ def check_C06(ctx, rep):
 
 
 def check_C07(ctx, rep):
+    small_models2.check_unit_elimination(ctx, rep, ctx.prog.func('cfg_algorithms.cfg_eliminate_unit_rules_in_place'))
+    rep.clauses_decided.append('cfg_eliminate_unit_rules_in_place, on six model grammars (unit cycles with an exit, a start variable that only reaches unit rules, a self-loop) under two iteration orders of the variable set, leaves no unit rule and keeps the words up to length 3 (M16, finite model)')
     small_models2.check_nullable(ctx, rep, ctx.prog.func('cfg_algorithms.cfg_nullable_variables'))
     rep.clauses_decided.append('cfg_nullable_variables (run by the on-the-fly Chomsky conversion of the membership test) returns the least fixpoint of the definition on seven model grammars (M15, finite model)')
     rep.clauses_decided += ['CYK schedule: for n <= 12 every cell is written after the cells it reads and reads exactly the splits of its span (M7)',
@@ -329,6 +331,8 @@ def _conversion_kernel(ctx, rep):
 
 
 def check_C08(ctx, rep):
+    small_models2.check_unit_elimination(ctx, rep, ctx.prog.func('cfg_algorithms.cfg_eliminate_unit_rules_in_place'))
+    rep.clauses_decided.append('cfg_eliminate_unit_rules_in_place, on six model grammars (unit cycles with an exit, a start variable that only reaches unit rules, a self-loop) under two iteration orders of the variable set, leaves no unit rule and keeps the words up to length 3 (M16, finite model)')
     small_models2.check_nullable(ctx, rep, ctx.prog.func('cfg_algorithms.cfg_nullable_variables'))
     rep.clauses_decided.append('cfg_nullable_variables returns the least fixpoint of the definition on seven model grammars (M15, finite model)')
     rep.clauses_decided += ['pure twins deep-copy, call the in-place phase and return the copy (R-TWIN)', 'input grammar untouched (R-EFFECT)',
@@ -351,6 +355,7 @@ def check_C09(ctx, rep):
                             'the guard is true exactly when u is epsilon or on top of the stack, and the action pops u / pushes v, on a finite model of symbols and stacks (M9)',
                             'closure / step alternation and final test on a closed set (R-CLOSED)']
     rep.not_decided += ['soundness and completeness of the configuration search as a whole']
+    _pda_step_models(ctx, rep)      # first: a rewritten step that leaves the fragment of the structural rules is still decided
     _worklists_in(ctx, rep, ['pda_algorithms.pda_epsilon_closure'])
     if state.check_config_reads(ctx, rep) < 1:
         raise AnalysisError('no read of a GambaTools setting found')
@@ -358,7 +363,6 @@ def check_C09(ctx, rep):
         raise AnalysisError('fewer than 4 pda_pop_push call sites found')
     if pda_rules.check_stack_step(ctx, rep, ctx.prog.func('pda_algorithms.pda_can_pop_push'), ctx.prog.func('pda_algorithms.pda_pop_push')) < 2:
         rep.note('stack step outside the finite model')
-    _pda_step_models(ctx, rep)
     _closed(ctx, rep, ['pda_algorithms.pda_accepts_word'], 1)
     _effect_on(ctx, rep, ['pda_algorithms.pda_epsilon_closure', 'pda_algorithms.pda_do_transition', 'pda_algorithms.pda_accepts_word',
                           'pda_algorithms.pda_pop_push', 'pda_algorithms.pda_can_pop_push'], shared=False)
@@ -661,6 +665,8 @@ def check_C18(ctx, rep):
 
 
 def check_C19(ctx, rep):
+    small_models2.check_unit_elimination(ctx, rep, ctx.prog.func('cfg_algorithms.cfg_eliminate_unit_rules_in_place'))
+    rep.clauses_decided.append('cfg_eliminate_unit_rules_in_place, on six model grammars (unit cycles with an exit, a start variable that only reaches unit rules, a self-loop) under two iteration orders of the variable set, leaves no unit rule and keeps the words up to length 3 (M16, finite model)')
     rep.clauses_decided += ['no value-returning operation mutates an operand at any depth (R-EFFECT a)',
                             'no result shares an in-place-mutable field with an argument (R-EFFECT b)',
                             'no hidden insertion through defaultdict reads of partial maps (R-EFFECT c)',
